@@ -272,6 +272,8 @@ def concrete_playback(group, harness):
         return {}
     tests = {}
     for _h, src in _TEST_RE.findall(p.stdout):
+        if "Check for `cover`" in src:
+            continue   # vacuity witnesses are not counterexamples
         m = re.search(r"fn (kani_concrete_playback_\w+)", src)
         if m:
             tests[m.group(1)] = src
